@@ -429,6 +429,13 @@ def P_delete(ctx, server):
             ok = isinstance(setd, dict) and set(setd) == {"username"} and bool(flow.find(setd["username"], lambda n_: n_[0] == "field" and n_[2] == "username"))
             why = "update %s" % ({k: (sorted(v) if isinstance(v, dict) else flow.show(v)[:60]) for k, v in upd.items()})
         ctx.ob(rule, "update_user.reown", ok, where=cor.where(), expected="{$set: {username: new name}} on the old identity's problems", found=why)
+        # the problems are re-owned only after the user document was replaced: the unique index on user names arbitrates between two renames to the same
+        # name, the username_exists test before it does not (two requests can both pass it) - re-owning first hands the loser's problems to the winner
+        ro = cor.call_blocks(lambda p, t: ("mongodb::Collection" in p) and flow.last(p) == "replace_one")
+        dom = cor.dominators()
+        okd = len(um) == 1 and len(ro) == 1 and ro[0] in dom.get(um[0][0], set())
+        ctx.ob(rule, "update_user.reown-after-replace", okd, where=cor.where(), expected="replace_one(users) dominates update_many(problems)",
+               found="replace_one blocks %s, update_many blocks %s" % (ro, [x[0] for x in um]))
     except LookupError as e:
         ctx.lost(rule, "update_user", str(e))
 
